@@ -41,8 +41,8 @@ def harness(sanitize=True):
 
 def graphs(tier):
     if tier == "quick":
-        return [("one_TRUE", ["int", "str", "trk", "vec"]), ("one_FALSE", ["int", "str", "trk", "vec"]), ("two_TRUE", ["trk"]), ("two_FALSE", ["trk"])]
-    return [("one4_TRUE", ["int", "str", "trk", "vec"]), ("one4_FALSE", ["int", "str", "trk", "vec"]), ("one5_TRUE", ["trk"]), ("one5_FALSE", ["trk"]),
+        return [("one_TRUE", ["int", "str", "trk", "vec", "weq"]), ("one_FALSE", ["int", "str", "trk", "vec", "weq"]), ("two_TRUE", ["trk"]), ("two_FALSE", ["trk"])]
+    return [("one4_TRUE", ["int", "str", "trk", "vec", "weq"]), ("one4_FALSE", ["int", "str", "trk", "vec", "weq"]), ("one5_TRUE", ["trk"]), ("one5_FALSE", ["trk"]),
             ("two_TRUE", ["int", "str", "trk"]), ("two_FALSE", ["int", "str", "trk"])]
 
 
